@@ -201,6 +201,20 @@ CHECKS = {
         note="Paths where 'first match decides' and 'an excluded directory takes everything below' disagree are counted as ambiguous "
              "and not asserted; empty-directory inclusion and the -e selection are not asserted here (-e is exercised in C05/C12/C15).",
         design="DESIGN.md section 4, C18"),
+    "C19": dict(
+        category="exploration",
+        technique="property-based testing (Hypothesis) with constructed decoys (same name/size/time-stamp, different bytes), syscall read traces and independent hashes",
+        engine="hypothesis-cli",
+        text="Decoys and true copies are planted on the same and other disks (name match, or full-path match when the sub-second "
+             "time-stamp is zero), in import directories and among unsynced files of the array; sync is run plain, with pre-hash, with "
+             "--force-nocopy and after an aborted sync; moves are made inside trusted disks (fake UUIDs) and across disks. A decoy must "
+             "never be recorded as synced with inherited hashes (sync fails with 'Unexpected data change', blocks stay unsynced, every "
+             "BLK hash equals the independent hash of the bytes on disk, C06 holds, -h leaves parity untouched, --force-nocopy then "
+             "succeeds); moved files keep block map and hashes and need no reading when nothing else changed, every other new file is "
+             "read completely; fix never restores from imported/searched data bytes that differ from the recorded version.",
+        note="Hash size 16 in decoy cases; trusted inodes only on the first two disks; using a valid import offer is not required "
+             "(a stripe with another unrecoverable block is given up as a whole).",
+        design="DESIGN.md section 4, C19"),
 }
 
 NOT_YET = "check not built yet at this commit (planned in DESIGN.md section 4); not claimed until it runs"
